@@ -202,6 +202,19 @@ class Parser:
                     self.next()
             self.next()
             return ("ptuple", ps)
+        if self.at("["):
+            self.next()
+            ps = []
+            while not self.at("]"):
+                if self.at(".."):
+                    self.next()
+                    ps.append(("prest",))
+                else:
+                    ps.append(self.pattern())
+                if self.at(","):
+                    self.next()
+            self.next()
+            return ("pslice", ps)
         if tk.k in ("float", "int"):
             return ("plit", self.next().v)
         if tk.k == "id":
@@ -568,63 +581,82 @@ def scan_items(text, fname):
     while toks[i].k != "eof":
         tk = toks[i]
         if tk.k == "id" and tk.v == "fn" and toks[i + 1].k == "id":
-            name = toks[i + 1].v
-            ctx = " | ".join(h for h in stack if h)
-            p = Parser(toks, fname, name)
-            p.i = i + 2
-            if p.at("<"):
-                p.skip_angles()
-            p.expect("(")
-            params = []
-            while not p.at(")"):
-                if p.at("&"):
-                    p.next()
-                    if p.peek().k == "life":
+            try:
+                name = toks[i + 1].v
+                ctx = " | ".join(h for h in stack if h)
+                p = Parser(toks, fname, name)
+                p.i = i + 2
+                if p.at("<"):
+                    p.skip_angles()
+                p.expect("(")
+                params = []
+                while not p.at(")"):
+                    if p.at("&"):
                         p.next()
-                pmut = False
-                if p.at("mut"):
-                    p.next()
-                    pmut = True
-                if p.at("self"):
-                    p.next()
-                    params.append(("self", "Self"))
-                else:
-                    pat = p.pattern()
-                    if pmut and pat[0] == "pid":
-                        pat = ("pid", pat[1], True)
-                    p.expect(":")
-                    ty = "".join(p.skip_type([",", ")"]))
-                    params.append((pat, ty))
-                if p.at(","):
-                    p.next()
-            p.next()
-            ret = ""
-            if p.at("->"):
+                        if p.peek().k == "life":
+                            p.next()
+                    pmut = False
+                    if p.at("mut"):
+                        p.next()
+                        pmut = True
+                    if p.at("self"):
+                        p.next()
+                        params.append(("self", "Self"))
+                    else:
+                        try:
+                            pat = p.pattern()
+                            if p.at("@"):
+                                raise Unsupported("binding pattern")
+                        except Unsupported:
+                            # a parameter pattern outside the subset (only matters if this function is translated or
+                            # guarded: then `("p?",)` is refused there); skip to the `:` of the parameter
+                            d_ = 0
+                            while not (d_ == 0 and p.at(":")):
+                                v_ = p.next()
+                                if v_.k == "eof":
+                                    p.fail("parameter list")
+                                d_ += {"(": 1, "[": 1, "{": 1, ")": -1, "]": -1, "}": -1}.get(v_.v, 0) if v_.k == "p" else 0
+                            pat = ("p?",)
+                        if pmut and pat[0] == "pid":
+                            pat = ("pid", pat[1], True)
+                        p.expect(":")
+                        ty = "".join(p.skip_type([",", ")"]))
+                        params.append((pat, ty))
+                    if p.at(","):
+                        p.next()
                 p.next()
-                ret = "".join(p.skip_type(["{", ";"]) if not _has_where(p) else _skip_to_where(p))
-            where = ""
-            if p.at("where"):
-                where = " ".join(p.skip_type(["{", ";"]))
-            if p.at(";"):
-                i = p.i + 1
+                ret = ""
+                if p.at("->"):
+                    p.next()
+                    ret = "".join(p.skip_type(["{", ";"]) if not _has_where(p) else _skip_to_where(p))
+                where = ""
+                if p.at("where"):
+                    where = " ".join(p.skip_type(["{", ";"]))
+                if p.at(";"):
+                    i = p.i + 1
+                    continue
+                b0 = p.i
+                p.expect("{")
+                d = 1
+                while d:                      # bodies are parsed lazily (only those that are translated)
+                    v = p.next()
+                    if v.k == "eof":
+                        p.fail("unbalanced braces")
+                    if v.k == "p" and v.v == "{":
+                        d += 1
+                    elif v.k == "p" and v.v == "}":
+                        d -= 1
+                span = (toks[i].pos, toks[p.i - 1].pos + 1)
+                items.append(FnItem(name, ctx, params, ret, (toks, b0, p.i), span, fname))
+                items[-1].where = where
+                i = p.i
+                hdr_start = i
                 continue
-            b0 = p.i
-            p.expect("{")
-            d = 1
-            while d:                      # bodies are parsed lazily (only those that are translated)
-                v = p.next()
-                if v.k == "eof":
-                    p.fail("unbalanced braces")
-                if v.k == "p" and v.v == "{":
-                    d += 1
-                elif v.k == "p" and v.v == "}":
-                    d -= 1
-            span = (toks[i].pos, toks[p.i - 1].pos + 1)
-            items.append(FnItem(name, ctx, params, ret, (toks, b0, p.i), span, fname))
-            items[-1].where = where
-            i = p.i
-            hdr_start = i
-            continue
+            except Unsupported:
+                # a signature outside the subset (macro repetitions `$(..)*`, exotic patterns): the function is not
+                # registered; a target or guard that needs it then reports "found 0 definitions"
+                i += 1
+                continue
         if tk.v == "{" and tk.k == "p":
             hdr = " ".join(t.v for t in toks[hdr_start:i])
             keep = hdr if re.match(r"(pub )?(impl|macro_rules|trait|mod)\b", hdr) else None
@@ -637,7 +669,13 @@ def scan_items(text, fname):
                 stack.pop()
             hdr_start = i + 1
         elif tk.v == ";" and tk.k == "p":
-            hdr_start = i + 1
+            # `;` inside brackets (`[V; D0]` in an impl header) does not end an item
+            depth = 0
+            for t_ in toks[hdr_start:i]:
+                if t_.k == "p":
+                    depth += {"[": 1, "(": 1, "]": -1, ")": -1}.get(t_.v, 0)
+            if depth <= 0:
+                hdr_start = i + 1
         elif tk.v == "]" and toks[hdr_start].v == "#":
             hdr_start = i + 1      # attribute finished
         i += 1
@@ -1314,15 +1352,42 @@ GUARDS = {
 }
 
 
-def check_guards(items, fname, text):
+# helpers of src/multi_array/* that the product functions use and that are translated BY CONVENTION
+# (`productN_iter`, `MArrDN::productN`, `MArrN::productN` ↦ `outer2` / `outer3`, row-major, left-associated products).
+# A group is checked only for the targets that name it in spec["guards"]: a failure makes exactly those functions holes.
+ML, MU = "multi_array/labeled.rs", "multi_array/non_labeled.rs"
+GUARD_GROUPS = {
+    "marr_labeled_2": (ML, [
+        ("product2_iter", r"^$", ["w0", "w1"], "{ iproduct ! ( w0 , w1 ) . map ( | ( & v0 , & v1 ) | v0 * v1 ) }"),
+        ("product2", r"Product2 < & MArrD1 < D0 , V > , & MArrD1 < D1 , V > > for MArrD2 < D0 , D1 , V >", ["w0", "w1"],
+         "{ Self :: from_iter ( product2_iter ( w0 , w1 ) ) }"),
+    ]),
+    "marr_labeled_3": (ML, [
+        ("product3_iter", r"^$", ["w0", "w1", "w2"],
+         "{ iproduct ! ( w0 , w1 , w2 ) . map ( | ( & v0 , & v1 , & v2 ) | v0 * v1 * v2 ) }"),
+        ("product3", r"Product3 < & MArrD1 < D0 , V > , & MArrD1 < D1 , V > , & MArrD1 < D2 , V > > for MArrD3 < D0 , D1 , D2 , V >",
+         ["w0", "w1", "w2"], "{ Self :: from_iter ( product3_iter ( w0 , w1 , w2 ) ) }"),
+    ]),
+    "marr_unlabeled_2": (MU, [
+        ("product2", r"Product2 < & \[ V ; D0 \] , & \[ V ; D1 \] > for MArr2 < V , D0 , D1 >", ["w0", "w1"],
+         "{ Self :: from_fn ( | d | w0 [ d [ 0 ] ] * w1 [ d [ 1 ] ] ) }"),
+    ]),
+    "marr_unlabeled_3": (MU, [
+        ("product3", r"Product3 < & \[ V ; D0 \] , & \[ V ; D1 \] , & \[ V ; D2 \] > for MArr3 < V , D0 , D1 , D2 >",
+         ["w0", "w1", "w2"], "{ Self :: from_fn ( | d | w0 [ d [ 0 ] ] * w1 [ d [ 1 ] ] * w2 [ d [ 2 ] ] ) }"),
+    ]),
+}
+
+
+def check_guards(items, fname, text, guards=None):
     spans = []
-    for name, ctx, params, body in GUARDS[fname]:
+    for name, ctx, params, body in (GUARDS[fname] if guards is None else guards):
         it = find(items, name, ctx)
         got_params = [p[0] if p[0] == "self" else (p[0][1] if p[0][0] == "pid" else "?") for p in it.params]
         got = it.body_text().replace(", }", "}").replace(",}", "}")
         got = re.sub(r"\s+", " ", got.replace("}", " }")).strip()
         if got_params != params or got != body:
-            raise Unsupported("%s: fn %s (%s): convention guard: the accessor/constructor is no longer `%s`, found `%s`"
+            raise Unsupported("%s: fn %s (%s): convention guard: the body is no longer `%s`, found `%s`"
                               % (fname, name, ctx.strip("^$"), body, got))
         spans.append(text[it.span[0]:it.span[1]])
     return spans
@@ -1374,6 +1439,23 @@ def generate(out_name, src_dir, forced=None):
             except Unsupported as e:
                 raise Fatal("item scanner lost in %s: %s" % (fname, e))
         return cache[fname]
+    group_state = {}
+
+    def group_failure(g):
+        """None if the guard group holds, else the reason (checked once per run; its spans enter the sha)"""
+        if g not in group_state:
+            gfile, guards = GUARD_GROUPS[g]
+            try:
+                gtext, gitems = load(gfile)
+                spans.extend(check_guards(gitems, gfile, gtext, guards))
+                group_state[g] = None
+            except (Unsupported, Fatal) as e:
+                sys.stderr.write("rs2lean: %s: CONVENTION GUARD GROUP `%s` FAILED, the functions relying on it become "
+                                 "untranslatable: %s\n" % (gfile, g, e))
+                m = re.match(r"^[^:]+: (fn [^:]+): ", str(e))
+                group_state[g] = "convention guard group `%s` of %s failed (%s): the helper is translated by convention" % (
+                    g, gfile, m.group(1) if m else str(e)[:120])
+        return group_state[g]
     for fname, targets, guard_files in cfg["units"]:
         text, items = load(fname)
         poison = None
@@ -1392,6 +1474,10 @@ def generate(out_name, src_dir, forced=None):
             why, d, line, span = poison, None, 0, ""
             if why is None and forced and lean_name in forced:
                 why = forced[lean_name]
+            for g in spec.get("guards", ()):
+                gf = group_failure(g)
+                if why is None and gf is not None:
+                    why = gf
             try:
                 it = find(items, rust, ctx)
                 span = text[it.span[0]:it.span[1]]
@@ -2550,10 +2636,11 @@ PROD3 = (r"Product3 < Opinion1dRef < 'a , V , D0 > , Opinion1dRef < 'a , V , D1 
          r"for Opinion < MArr3 < V , D0 , D1 , D2 > , V >")
 NL_TARGETS = [
     ("product2", "product2", PROD2,
-     {"rty": "Except Label (Opinion α (n0 * n1))", "dims": {"D0": "n0", "D1": "n1", "MArr2": "n0 * n1"}}),
+     {"rty": "Except Label (Opinion α (n0 * n1))", "dims": {"D0": "n0", "D1": "n1", "MArr2": "n0 * n1"},
+      "guards": ["marr_unlabeled_2"]}),
     ("product3", "product3", PROD3,
      {"rty": "Except Label (Opinion α (n0 * n1 * n2))",
-      "dims": {"D0": "n0", "D1": "n1", "D2": "n2", "MArr3": "n0 * n1 * n2"}}),
+      "dims": {"D0": "n0", "D1": "n1", "D2": "n2", "MArr3": "n0 * n1 * n2"}, "guards": ["marr_unlabeled_3"]}),
     ("Simplex1d_into_opinion", "into_opinion", r"^impl < V , const N : usize > Simplex1d < V , N >",
      {"rty": "Except Label (Opinion α n)", "dims": {"N": "n"}}),
 ]
@@ -2578,16 +2665,19 @@ for _t in BI_TARGETS:
     _t[3].setdefault("emit", BiEmit)
 LB_TARGETS = [
     ("product2_labeled", "product2", r"Product2 < OpinionRefD1 < 'a , D0 , V > , OpinionRefD1 < 'a , D1 , V > > for OpinionD2",
-     {"rty": "Opinion α (n0 * n1)", "dims": {"D0": "n0", "D1": "n1", "MArrD2": "n0 * n1"}}),
+     {"rty": "Opinion α (n0 * n1)", "dims": {"D0": "n0", "D1": "n1", "MArrD2": "n0 * n1"}, "guards": ["marr_labeled_2"]}),
     ("product3_labeled", "product3", r"Product3 < OpinionRefD1 < 'a , D0 , V > , OpinionRefD1 < 'a , D1 , V > , OpinionRefD1 < 'a , D2 , V > > for OpinionD3",
-     {"rty": "Opinion α (n0 * n1 * n2)", "dims": {"D0": "n0", "D1": "n1", "D2": "n2", "MArrD3": "n0 * n1 * n2"}}),
+     {"rty": "Opinion α (n0 * n1 * n2)", "dims": {"D0": "n0", "D1": "n1", "D2": "n2", "MArrD3": "n0 * n1 * n2"},
+      "guards": ["marr_labeled_3"]}),
 ]
 MERGE = r"MergeJointConditions2 < V , X1 , X2 , X1X2 , Y , CYX1 , CYX2 , TX1 , TX2 , TY , U > for CX1X2Y"
 MERGE_TARGETS = [
     ("merge_cond2_unlabeled", "merge_cond2", MERGE,
-     {"rty": "Except Label (Vector (Simplex α m) (n1 * n2))", "cond": {"CYX1": "m", "CYX2": "m"}, "family": "unlabeled"}),
+     {"rty": "Except Label (Vector (Simplex α m) (n1 * n2))", "cond": {"CYX1": "m", "CYX2": "m"}, "family": "unlabeled",
+      "guards": ["marr_unlabeled_2"]}),
     ("merge_cond2_labeled", "merge_cond2", MERGE,
-     {"rty": "Vector (Simplex α m) (n1 * n2)", "cond": {"CYX1": "m", "CYX2": "m"}, "family": "labeled"}),
+     {"rty": "Vector (Simplex α m) (n1 * n2)", "cond": {"CYX1": "m", "CYX2": "m"}, "family": "labeled",
+      "guards": ["marr_labeled_2"]}),
 ]
 for _t in MUL_TARGETS + NL_TARGETS + LB_TARGETS + MERGE_TARGETS:
     _t[3].setdefault("emit", MulEmit)
